@@ -77,14 +77,17 @@ var ErrInjected = errors.New("verif: injected transport error")
 // ChunkReader hands out the stream in the given chunk sizes (a chunk larger
 // than the caller's buffer is returned in pieces), then EOF or ErrInjected.
 type ChunkReader struct {
-	Data     []byte
-	Sizes    []int
-	TailErr  bool
-	pos      int
-	idx      int
-	left     int // left in current chunk
-	Consumed int
-	Reads    int
+	Data    []byte
+	Sizes   []int
+	TailErr bool
+	// EndWithData: the Read that returns the last bytes of the stream also returns the end of the
+	// stream (io.EOF / the injected error), as io.Reader allows and QUIC streams do (FIN in the frame)
+	EndWithData bool
+	pos         int
+	idx         int
+	left        int // left in current chunk
+	Consumed    int
+	Reads       int
 }
 
 func NewChunkReader(data []byte, sizes []int, tailErr bool) *ChunkReader {
@@ -125,6 +128,12 @@ func (c *ChunkReader) Read(p []byte) (int, error) {
 	c.pos += n
 	c.left -= n
 	c.Consumed += n
+	if c.EndWithData && c.pos >= len(c.Data) {
+		if c.TailErr {
+			return n, ErrInjected
+		}
+		return n, io.EOF
+	}
 	return n, nil
 }
 
@@ -137,9 +146,9 @@ type Out struct {
 	w     *bufio.Writer
 	Cases int
 	// statistics for the evidence file
-	Counts  map[string]int
-	Samples []string
-	seen    map[string]bool
+	Counts   map[string]int
+	Samples  []string
+	seen     map[string]bool
 	Distinct int
 }
 
